@@ -137,8 +137,16 @@ def parStealSig (w : World) (i : IId) (c : EId) : Bool :=
 def evicted (w : World) (m : Mon) (d : EId) : Bool :=
   !(w.ev d).signal && !inAnyHist w d && m.accepted.any (·.2 == d)
 
+/-- xparent: an event of the tree lists, among the children of one of its handler results, an event whose (explicitly
+    supplied) parent id names another event: when that child completes the completion walk follows the parent id, so the
+    event that is waiting for it is never re-checked -/
+def xparentSig (w : World) (e : EId) : Bool :=
+  (events w).any fun d => desc w d e && !(w.ev d).signal &&
+    (w.ev d).children.any fun c => (w.ev c).parent != some d && c != d
+
 /-- names of the recorded hang mechanisms present in the tree of `e` -/
 def hangSigs (w : World) (m : Mon) (e : EId) : List String :=
+  (if xparentSig w e then ["xparent"] else []) ++
   (if m.tripped.any (fun d => desc w d.2 e) then ["F2"] else []) ++
   (if m.aborted.any (fun d => desc w d.2 e) then ["F5"] else []) ++
   (if (events w).any (fun d => desc w d e && evicted w m d) then ["F11"] else []) ++
@@ -168,6 +176,7 @@ def stuckSigs (w : World) (m : Mon) (e : EId) : List String :=
    then ["F5"] else [])
 
 def busHangSigs (w : World) (m : Mon) (b : BId) : List String :=
+  (if (w.bus b).hist.any (fun e => xparentSig w e) then ["xparent"] else []) ++
   (if m.tripped.any (fun d => d.1 == b) then ["F2"] else []) ++
   (if m.aborted.any (fun d => d.1 == b) then ["F5"] else []) ++
   (if m.dropped.any (fun d => d.1 == b) then ["stop-drop"] else []) ++
